@@ -115,8 +115,8 @@ def r12_2(ck):
         # the advancing assignment in that branch is the += (middle branch)
         doms = [a for a in advs if cfg.iter_dominates(
             rf.while_loop, cfg.node(a), en)]
-        ok = all(isinstance(a, ast.AugAssign) or 'full_step' in A.unparse(a)
-                 for a in doms)
+        ok = all(isinstance(a, ast.AugAssign) or not A.is_name(
+            a.value, 'end_time') for a in doms)
         ck.require(ok, 'R12.2', f, e,
                    'rows are emitted only in the branch that applies '
                    'updates (not in the jump branches)',
